@@ -62,6 +62,29 @@ func (w *countingWriter) Write(p []byte) (int, error) {
 	return len(p), nil
 }
 
+// shortWriter accepts at most max bytes per call; with failAt > 0 it fails once that many bytes arrived.
+type shortWriter struct {
+	max, failAt int
+	got         []byte
+}
+
+func (w *shortWriter) Write(p []byte) (int, error) {
+	if w.failAt > 0 && len(w.got) >= w.failAt {
+		return 0, fmt.Errorf("write fault injected by the harness")
+	}
+	n := len(p)
+	if n > w.max {
+		n = w.max
+	}
+	if w.failAt > 0 && len(w.got)+n > w.failAt {
+		n = w.failAt - len(w.got)
+	}
+	w.got = append(w.got, p[:n]...)
+	// a short count with a nil error: what WriteN's retry loop is written for (transports that take what
+	// fits and expect the caller to come back)
+	return n, nil
+}
+
 // scriptReader serves a byte stream in the chunks of a script; when the
 // script is exhausted the rest is served as requested and end-of-stream is
 // reported by a separate (0, io.EOF).
@@ -213,6 +236,28 @@ func c01DoLayout(res *hlib.Result, l c01Layout) {
 		}
 		res.Fail("framing/layout-bytes", fmt.Sprintf("wire bytes differ from the documented header: got % x", all[:n]), cse)
 		return
+	}
+	// the same message into writers that take only a few bytes per Write call (io.Writer allows a short
+	// write with a nil error only together with... nothing: WriteN's retry loop is what makes the whole
+	// message arrive), and into one that fails half way (Write must report it)
+	if !big {
+		for _, k := range []int{1, 3, 27, 29} {
+			sw := &shortWriter{max: k}
+			if err := msg.Write(sw); err != nil {
+				res.Fail("framing/short-write-error", fmt.Sprintf("a writer that accepts %d bytes per call: %v", k, err), cse)
+				break
+			}
+			if !bytes.Equal(sw.got, want) {
+				res.Fail("framing/short-write-bytes", fmt.Sprintf("a writer that accepts %d bytes per call received %d bytes, the message has %d", k, len(sw.got), len(want)), cse)
+				break
+			}
+		}
+		if len(want) > 10 {
+			fw := &shortWriter{max: 7, failAt: len(want) / 2}
+			if err := msg.Write(fw); err == nil {
+				res.Fail("framing/write-fault-swallowed", "the writer failed half way and Message.Write reported success", cse)
+			}
+		}
 	}
 	// read back from the documented bytes
 	var m2 net.Message
